@@ -59,7 +59,7 @@ INL = [lambda r: r.choice(WORDS), lambda r: r.choice(WORDS) + " " + r.choice(WOR
        lambda r: "[" + r.choice(WORDS) + "](/u)", lambda r: "[" + r.choice(WORDS) + "](/u \"t\")", lambda r: "![" + r.choice(WORDS) + "](/i)",
        lambda r: "[*" + r.choice(WORDS) + "*][r]", lambda r: "[r]", lambda r: "[r][]", lambda r: "![r]",
        lambda r: "<http://x.y/" + r.choice(["", "z", "é"]) + ">", lambda r: "<a@b.c>", lambda r: "http://e.x/" + r.choice(["a", "b_c", "q?x=1"]),
-       lambda r: "www.e.x", lambda r: "a@b.c", lambda r: "x.y+z@w.org", lambda r: "<b>", lambda r: "<i a=\"b\">", lambda r: "<!-- c -->",
+       lambda r: "www.e.x", lambda r: r.choice(["news://e.x/a", "owncloud://a.b/c", "browser://x.y", "twitter://t", "swift://s.t/u"]), lambda r: "a@b.c", lambda r: "x.y+z@w.org", lambda r: "<b>", lambda r: "<i a=\"b\">", lambda r: "<!-- c -->",
        lambda r: "\\*", lambda r: "&amp;", lambda r: "&#65;", lambda r: "[^f]", lambda r: "\t", lambda r: "  ", lambda r: r.choice(["--", "...", "'q'", "\"q\""]),
        lambda r: "$x$", lambda r: "~s~", lambda r: "^s^", lambda r: "||sp||", lambda r: "[[w]]", lambda r: "__u__", lambda r: "\\", lambda r: "!", lambda r: "]",
        lambda r: "\x00"]
@@ -247,7 +247,7 @@ def build_cases(rng, tier):
     # every ordered pair of inline constructs glued together (no space / one space), alone, after a soft break in a
     # block quote, and in a list item: what one construct consumes beyond its own end shows in its neighbour
     ADJ = ["w", "*e*", "**s**", "_u_", "`c`", "``c`d``", "[t](/u)", "[t](/u \"x\")", "![i](/i)", "[r]", "[r][]", "[t][r]", "![r]", "[^f]", "[^g]", "[x]", "[[w]]",
-           "<http://x.y>", "<a@b.c>", "http://e.x/a", "www.e.x", "a@b.c", "<b>", "<!-- c -->", "\\*", "&amp;", "&#65;", "$x$", "~~d~~", "~s~", "^p^", "||o||",
+           "<http://x.y>", "<a@b.c>", "http://e.x/a", "news://e.x/a", "owncloud://a.b/c", "www.e.x", "a@b.c", "<b>", "<!-- c -->", "\\*", "&amp;", "&#65;", "$x$", "~~d~~", "~s~", "^p^", "||o||",
            "__n__", "é", "!", "]", "[", "(", ")", ":", "\t"]
     TAIL = "\n\n[r]: /u\n\n[^f]: n\n"
     for a in ADJ:
@@ -256,7 +256,7 @@ def build_cases(rng, tier):
                 t = a + glue + b
                 pick = rng.random()
                 ctx = (t + " z" + TAIL) if pick < 0.4 else ("> q\n> " + t + " z" + TAIL) if pick < 0.7 else ("- " + t + "\n  " + t + TAIL)
-                cases.append((dict(ALL_EXT), ctx.encode(), "adjacent"))
+                cases.append((dict(ALL_EXT, relaxed_autolinks=True) if rng.random() < 0.5 else dict(ALL_EXT), ctx.encode(), "adjacent"))
     allx = dict(ALL_EXT)
     for d in exhaustive_small(4 if tier == "quick" else 5):
         cases.append((allx, d.encode(), "exhaustive"))
